@@ -234,7 +234,7 @@ def configs_small():
 def configs_large(quick):
     out = []
     sizes_v2 = [(257, 2), (2, 257)] if quick else \
-        [(254, 3), (255, 256), (256, 255), (257, 2), (3, 300), (300, 257), (1000, 3), (2, 1000)]
+        [(254, 3), (255, 256), (256, 255), (257, 2), (2, 257), (3, 300), (300, 257), (600, 3)]
     for nl, np_ in sizes_v2:
         out.append(_cfg('large:v2:l%dp%d' % (nl, np_), 10, True, nl, np_, style='long', T=30.0))
     for nl, np_ in ((255, 2),) if quick else ((255, 2), (2, 255)):
